@@ -74,3 +74,26 @@ Theorem C07_csp_hits_after_history : forall h matches pr, In 0 pr -> forall L op
   (In f (csp_hits matches pr (run_ops h L ops)) <-> In f (filter (act matches (set_ops ops)) (of_cat CCsp L))).
 Proof. exact csp_hits_after_history. Qed.
 Print Assumptions C07_csp_hits_after_history.
+
+(* ------------------------------------------------------------------ translator tie: the control
+   structure of src/blocker.rs as extracted on this run (Generated.BlockerGen, written by
+   tools/gen_fragments/c01_blocker_structure.py) denotes the hand-written model *)
+From Coq Require Import String.
+From Adb Require Import Struct_Proofs.
+Import Generated.BlockerGen.
+
+(* which list queries receive the enabled tag set: importants, filters_tagged, exceptions on BOTH
+   call sites, csp; filters / redirects / removeparam / generic_hide get the empty set *)
+Theorem C07_src_tag_sites :
+  site_uses_tags "check_parameterised" "importants" = [true]
+  /\ site_uses_tags "check_parameterised" "filters_tagged" = [true]
+  /\ site_uses_tags "check_parameterised" "filters" = [false]
+  /\ site_uses_tags "check_parameterised" "exceptions" = [true; true]
+  /\ site_uses_tags "check_parameterised" "redirects" = [false]
+  /\ site_uses_tags "get_csp_directives" "csp" = [true]
+  /\ site_uses_tags "check_generic_hide" "generic_hide" = [false]
+  /\ site_uses_tags "apply_removeparam" "removeparam_filters" = [false]
+  /\ removeparam_source = "removeparam"%string
+  /\ List.length tag_sites = 9%nat.
+Proof. exact tag_sites_are_model. Qed.
+Print Assumptions C07_src_tag_sites.
